@@ -13,7 +13,7 @@
 Require Import List NArith QArith Bool.
 Require Import KV.Hybrid.Lineage KV.Hybrid.Spec KV.Hybrid.Model KV.Hybrid.SearchSpec
                KV.Hybrid.LineageProofs KV.Hybrid.BuildProofs KV.Hybrid.ProbProofs KV.Hybrid.SearchProofs KV.Hybrid.ControllerProofs
-               KV.Hybrid.TerminationProofs.
+               KV.Hybrid.TerminationProofs KV.Hybrid.ExclusiveProofs.
 Import ListNotations.
 Open Scope Q_scope.
 
@@ -190,16 +190,83 @@ Theorem C08_topk :
 Proof. exact evaluate_topk_sound. Qed.
 Print Assumptions C08_topk.
 
-(* (5, stretch) Exclusive groups: the top-k path is never taken; the answer is the exact count of the compiled
-   SDD (defined by the Spec `ProbX_node`; that the manager computes it is property C07) or NeedsExact. *)
-Theorem C08_exclusive_partial :
-  forall a sl root kf fuel c clk orc,
+(* (5) Exclusive groups (annotated disjunctions).  Spec: `ProbX_node` (Spec.v) - possible worlds are drawn by picking
+   exactly ONE choice in every group, choice r with probability `sprob r`, and a truth value for every independent seed;
+   P(root) is the sum of the weights of the worlds where the root holds.  `snapshot_valid` = distinct ids, probabilities
+   in [0,1], every group's probabilities sum to 1.
+
+   `compile_plan` (Model.v) is what compile_lineage_to_sdd_with_clock hands to the SDD manager: the referenced seeds and
+   ALL members of their groups as variables (weights (p, 1-p) for independent seeds, (p, 1) for choices), the lineage, and
+   for every referenced group one exactly-one constraint whose range `p_constraints` is ALL choices of the group.
+   The weighted count of that formula over those variables is P(root).  (That the manager returns exactly this weighted
+   count is property C07; it is the SDD oracle here.) *)
+Theorem C08_compile_plan_exact :
+  forall a sl root,
+    wf a = true -> snapshot_valid sl ->
+    plan_wmc a root (compile_plan sl a root) == ProbX_node sl a root.
+Proof.
+  intros a sl root Hwf [[Hnd _] Hn]. exact (plan_wmc_correct a sl root Hwf Hnd Hn).
+Qed.
+Print Assumptions C08_compile_plan_exact.
+
+(* ProbX_node extends the independent-seed probability: when the lineage mentions no choice of any group they agree *)
+Theorem C08_probx_extends_prob :
+  forall a sl root,
+    wf a = true -> snapshot_valid sl -> has_exclusive sl a root = false ->
+    Prob_node sl a root == ProbX_node sl a root.
+Proof.
+  intros a sl root Hwf [[Hnd _] Hn] Hx. exact (Prob_node_ProbX a sl root Hwf Hnd Hn Hx).
+Qed.
+Print Assumptions C08_probx_extends_prob.
+
+(* The master statement for snapshots WITH exclusive groups, every lineage (mentioning choices or not, negated or not):
+   Exact = P(root), intervals contain it, Alert/NoAlert agree with the threshold, otherwise NeedsExact. *)
+Theorem C08_sound_groups :
+  forall a sl root,
+    wf a = true -> snapshot_valid sl ->
+    forall kf fuel c clk orc,
+      result_sound (threshold c) (ProbX_node sl a root) (evaluate kf fuel c a sl root clk orc).
+Proof. exact evaluate_sound_groups. Qed.
+Print Assumptions C08_sound_groups.
+
+(* Top-k / interval results are never produced for a lineage that mentions a choice of a group: the controller goes
+   straight to the exact fallback (result: the plan's weighted count, or NeedsExact without bounds) and evaluate_topk
+   refuses.  (For lineages that mention no choice, top-k runs and `C08_sound_groups` covers its results.) *)
+Theorem C08_exclusive_no_topk :
+  forall a sl root kf fuel c clk orc k budget,
     has_exclusive sl a root = true ->
-    (exists d m, evaluate kf fuel c a sl root clk orc
-                 = RExact (qclamp (Qred (ProbX_node sl a root)) 0 1) d ExactSdd m)
-    \/ (exists rs m, evaluate kf fuel c a sl root clk orc = RNeedsExact None None rs m).
-Proof. exact evaluate_exclusive. Qed.
-Print Assumptions C08_exclusive_partial.
+    ((exists d m, evaluate kf fuel c a sl root clk orc
+                  = RExact (qclamp (exact_probability sl a root) 0 1) d ExactSdd m
+                  /\ d = decide c (qclamp (exact_probability sl a root) 0 1))
+     \/ (exists rs m, evaluate kf fuel c a sl root clk orc = RNeedsExact None None rs m))
+    /\ exists rs, evaluate_topk fuel a sl root k budget clk orc = TkErr rs.
+Proof.
+  intros a sl root kf fuel c clk orc k budget Hx. split.
+  - exact (evaluate_exclusive a sl root kf fuel c clk orc Hx).
+  - exact (evaluate_topk_exclusive fuel a sl root k budget clk orc Hx).
+Qed.
+Print Assumptions C08_exclusive_no_topk.
+
+(* The constraint must range over ALL choices: with the range restricted to the choices the lineage mentions
+   (`compile_plan_referenced_only`) the weighted count is wrong - group {0: 1/4, 1: 1/4, 2: 1/2}, root = NOT x0:
+   P = 3/4, restricted plan counts 0. *)
+Definition exg_sl : seeds := [(0%N, (1 # 4, Some 7%N)); (1%N, (1 # 4, Some 7%N)); (2%N, (1 # 2, Some 7%N))].
+Definition exg_arena : arena := fst (build [OLit 0; ONot 2]).
+Theorem C08_constraint_all_choices_refuted :
+  wf exg_arena = true /\ snapshot_valid exg_sl
+  /\ ProbX_node exg_sl exg_arena 3 == 3 # 4
+  /\ plan_wmc exg_arena 3 (compile_plan exg_sl exg_arena 3) == 3 # 4
+  /\ ~ plan_wmc exg_arena 3 (compile_plan_referenced_only exg_sl exg_arena 3) == ProbX_node exg_sl exg_arena 3.
+Proof.
+  split; [reflexivity|]. split.
+  - split; [split|].
+    + repeat constructor; simpl; intuition discriminate.
+    + repeat constructor; simpl; discriminate.
+    + intros g Hg. vm_compute in Hg. destruct Hg as [<-|[]]. vm_compute. reflexivity.
+  - split; [vm_compute; reflexivity|]. split; [vm_compute; reflexivity|].
+    vm_compute. discriminate.
+Qed.
+Print Assumptions C08_constraint_all_choices_refuted.
 
 (* The lineage store.  `good a` = well-formed + FALSE/TRUE at ids 0/1; `extends a a'` = a' is good, at least as long,
    and every existing id keeps its meaning; `opb true` = conjunction, `opb false` = disjunction (BuildProofs.v).
